@@ -118,6 +118,18 @@ def run(ctx):
                     ctx.violation(found[0], found[1], found[2], True)
         else:
             ctx.tie_broken("oracle-run:cache", log)
+    # stream keys: KeyComplete validated on the real generators (warm shared cache vs. from scratch)
+    ctx.diff_stream("keys", ctx.n(40, 400), oracle=oracle)
+    st = os.path.join(ctx.work, "keys.run.impl.stats")
+    if os.path.exists(st):
+        for l in ctx.read_lines(st):
+            f = l.split()
+            if len(f) == 3:
+                if f[0].startswith("cache-entries") or f[0].startswith("served-from"):
+                    ctx.count("keys." + f[0], int(f[1]))
+                else:
+                    ctx.count("keys.pairs.%s" % f[0], int(f[1]))
+                    ctx.count("keys.pairs_where_generation_differs.%s" % f[0], int(f[2]))
     # ... and the exhaustive interleaving enumeration on the real cache
     il = os.path.join(ctx.work, "interleave.gen.ops")
     rc, log = ctx.harness("gen", "interleave", ctx.seed, ctx.n(8, 40), il)
